@@ -311,3 +311,24 @@ Example C09_np_extra_is_needed :
   (match lower_query noarg_rq with Ok q => np_ok [] q = false | Panic _ => False end).
 Proof. vm_compute. repeat split. Qed.
 Print Assumptions C09_np_extra_is_needed.
+
+(* args_fit from argument validation (C12): arguments accepted by Args.validate for the query's
+   recorded variable types fit, provided the variables of fold-count filters are recorded as Int!
+   ([Int!]! for one_of / not_one_of) — the frontend's typing of count filters, not part of wf_ir *)
+Theorem C09_validated_arguments_fit :
+  forall args q',
+    Args.validate (q_vars q') args = Ok Args.VOk ->
+    WfNoPanic.count_vars_typed (q_vars q') (q_comp q') = true ->
+    WfNoPanic.args_fit args q' = true.
+Proof. exact WfNoPanic.validate_args_fit. Qed.
+Print Assumptions C09_validated_arguments_fit.
+
+Example C09_validated_arguments_fit_nonvacuous :
+  (match lower_query aw_rq with
+   | Ok q => Args.validate (q_vars q) aw_args = Ok Args.VOk /\ WfNoPanic.count_vars_typed (q_vars q) (q_comp q) = true
+   | Panic _ => False end) /\
+  (match lower_query tr_rq with
+   | Ok q => Args.validate (q_vars q) tr_args = Ok Args.VOk /\ WfNoPanic.count_vars_typed (q_vars q) (q_comp q) = true
+   | Panic _ => False end).
+Proof. vm_compute. repeat split. Qed.
+Print Assumptions C09_validated_arguments_fit_nonvacuous.
